@@ -50,7 +50,9 @@ type FuncContract struct {
 	Line     int
 	Params   []string // for extern/type contracts: parameter names (binding by position)
 	Results  []string
-	Consumes []string
+	Consumes []Consume
+	Produces []string
+	Transfers []Transfer
 	GhostDefs []Clause
 	CallPres  []CallPre
 	NoCalls   []string
@@ -112,10 +114,40 @@ type GlobalInv struct {
 	Src   string
 }
 
+// ChanInv: payload invariant of a channel field: assumed for every value received from it, proved for
+// every value sent on it.
+type ChanInv struct {
+	Pkg   string
+	Field string // Type.field
+	Var   string
+	E     Expr
+	Src   string
+}
+
 type GhostVar struct {
-	Pkg  string
-	Name string
-	Type string
+	Pkg   string
+	Name  string
+	Type  string
+	Owned bool // changed only by the contracts that list it (survives calls to unknown code)
+}
+
+// Consume: the callee takes over the duty to complete the request held in Param
+// (or in the variables captured by the closure passed as Param), optionally only if Cond holds
+// in the post-state.
+type Consume struct {
+	Param    string
+	E        Expr // the consumed request as an expression over the parameters (free variables for closures)
+	Captured bool
+	Cond     Expr
+	Src      string
+}
+
+// Transfer: at calls whose callee name contains Callee, the duty for E moves out as well (the
+// request rides on the one handed to the callee: its completion hook was registered on it).
+type Transfer struct {
+	Callee string
+	E      Expr
+	Src    string
 }
 
 type Contracts struct {
@@ -126,6 +158,8 @@ type Contracts struct {
 	Order  []string
 	Tables []*TableCheck
 	GlobalInvs []*GlobalInv
+	ChanInvs   []*ChanInv
+	TokChans   []string // Type.field of channels that carry the duty to complete the requests sent on them
 }
 
 // TableCheck: ground obligations over literal tables of the repository.
@@ -270,9 +304,26 @@ func (cs *Contracts) LoadContractFile(path, pkg string) error {
 			cs.GlobalInvs = append(cs.GlobalInvs, gi)
 			cur, curLemma = nil, nil
 			return nil
-		case "ghost":
+		case "ghost", "ghost!":
 			w2, r2 := splitWord(rest)
-			cs.Ghosts[w2] = &GhostVar{Pkg: pkg, Name: w2, Type: r2}
+			cs.Ghosts[w2] = &GhostVar{Pkg: pkg, Name: w2, Type: r2, Owned: word == "ghost!"}
+			return nil
+		case "chaninv":
+			// chaninv Type.field(x): expr
+			i := strings.Index(rest, ":")
+			j := strings.Index(rest, "(")
+			k := strings.Index(rest, ")")
+			if i < 0 || j < 0 || k < j || i < k {
+				return fail("chaninv needs Type.field(x): expr")
+			}
+			e, err := ParseExpr(strings.TrimSpace(rest[i+1:]))
+			if err != nil {
+				return fail("%v", err)
+			}
+			cs.ChanInvs = append(cs.ChanInvs, &ChanInv{Pkg: pkg, Field: strings.TrimSpace(rest[:j]), Var: strings.TrimSpace(rest[j+1 : k]), E: e, Src: rest})
+			return nil
+		case "tokchan":
+			cs.TokChans = append(cs.TokChans, strings.Fields(rest)...)
 			return nil
 		case "table":
 			// table <kind> <name> args... ; props via following "prop" line not supported: inline "props=C14"
@@ -361,7 +412,38 @@ func (cs *Contracts) LoadContractFile(path, pkg string) error {
 				cur.Modifies = append(cur.Modifies, splitTop(rest)...)
 			}
 		case "consumes":
-			cur.Consumes = append(cur.Consumes, splitList(rest)...)
+			cn := Consume{Src: rest}
+			body := rest
+			if i := strings.Index(rest, " if "); i >= 0 {
+				e, err := ParseExpr(strings.TrimSpace(rest[i+4:]))
+				if err != nil {
+					return fail("%v", err)
+				}
+				cn.Cond = e
+				body = strings.TrimSpace(rest[:i])
+			}
+			if strings.HasPrefix(body, "captured(") && strings.HasSuffix(body, ")") {
+				cn.Captured = true
+				body = body[len("captured(") : len(body)-1]
+			}
+			cn.Param = body
+			if !cn.Captured {
+				e, err := ParseExpr(body)
+				if err != nil {
+					return fail("%v", err)
+				}
+				cn.E = e
+			}
+			cur.Consumes = append(cur.Consumes, cn)
+		case "transfers":
+			w2, r2 := splitWord(rest)
+			e, err := ParseExpr(r2)
+			if err != nil {
+				return fail("%v", err)
+			}
+			cur.Transfers = append(cur.Transfers, Transfer{Callee: w2, E: e, Src: rest})
+		case "produces":
+			cur.Produces = append(cur.Produces, splitList(rest)...)
 		case "let":
 			i := strings.Index(rest, "=")
 			if i < 0 {
